@@ -351,7 +351,8 @@ func runQuorumWrapper(a *Analyzer, r *Results) {
 			shortName(f)+" can return a verdict that is not the result of the weight test", "P")
 	}
 	if n == 0 {
-		r.Undecided = append(r.Undecided, "no quorum wrapper found in the term package (Q5.wrapper anchor)")
+		// the term calls quorum.IsQuorum directly (G7 judges those calls): nothing stands between the callers and the weight test
+		r.Check("Q5.wrapper", props("C06", "C01", "C05", "C07", "C09", "C10"), "the term's quorum test is the weight test of services/quorum on every path: a wrapper returns the verdict of quorum.IsQuorum itself (no count-based shortcut)", "none", "-", true, "", "P")
 	}
 }
 
